@@ -454,7 +454,7 @@ type vcProp struct {
 	// QuickDeep names universes that are additionally explored to depth 4 (graph mode, from the
 	// empty base) in the quick tier.
 	QuickDeep []string
-	// After runs once after the explorations (extra, property-specific sub-checks).
+	// After is an extra, property-specific sub-check (run once, before the explorations).
 	After func(x *vcRun)
 }
 
@@ -685,6 +685,11 @@ func vcMain(t *testing.T, prop *vcProp, rule string, assume ...string) {
 			c.ToolError("replay: no exploration named " + d.Spec)
 			return
 		}
+		// the property's extra sub-check runs first: it is cheap and must not be starved by the
+		// deep explorations of the thorough tier
+		if prop.After != nil {
+			prop.After(x)
+		}
 		for i, it := range plan {
 			if c.Expired() {
 				c.Capped(fmt.Sprintf("deadline before exploration %d of %d", i+1, len(plan)))
@@ -692,9 +697,6 @@ func vcMain(t *testing.T, prop *vcProp, rule string, assume ...string) {
 			}
 			sp := x.spec(it)
 			hbfs.Explore(c, sp)
-		}
-		if prop.After != nil && !c.Expired() {
-			prop.After(x)
 		}
 		c.Extra("fresh_start_runs", x.fresh.n)
 		c.Extra("workers", vcWorkers())
